@@ -208,6 +208,8 @@ theorem primitive_in_view (v : View) (hv : v.wf) (st : Stmt) (ops : Ops) (hok : 
     simp only [Stmt.ops, Except.ok.injEq] at hok; subst hok; obtain ⟨op, hm, _⟩ := hw; cases hm
   | viewOff => simp only [Stmt.ops, Except.ok.injEq] at hok; subst hok; obtain ⟨op, hm, _⟩ := hw; cases hm
   | setPage _ => simp only [Stmt.ops, Except.ok.injEq] at hok; subst hok; obtain ⟨op, hm, _⟩ := hw; cases hm
+  | setMode _ _ _ _ _ =>
+    simp only [Stmt.ops, Except.ok.injEq] at hok; subst hok; obtain ⟨op, hm, _⟩ := hw; cases hm
 
 /-! ### VIEW -/
 
@@ -282,7 +284,7 @@ def FillOk (v : View) (st : Stmt) : Prop :=
     nothing changes outside the viewport rectangle (for VIEW: outside the screen; and outside the new rectangle
     when no border is requested).  **only_active_page** + **primitive_in_view** at the level of the statement. -/
 theorem step_only_active_page_in_view (s : Screen) (hinv : Inv s) (attr : Nat) (st : Stmt) (s' : Screen)
-    (hfill : FillOk s.view st) (h : step s attr st = .ok s') :
+    (hfill : FillOk s.view st) (hnm : st.isModeSwitch = false) (h : step s attr st = .ok s') :
     Inv s' ∧
     (∀ i, i ≠ s.apage → s'.pages i = s.pages i) ∧
     (∀ x y, (match st with
@@ -321,6 +323,7 @@ theorem step_only_active_page_in_view (s : Screen) (hinv : Inv s) (attr : Nat) (
         injection h with h
         exact generic st ops hops hf h.symm
   cases st with
+  | setMode _ _ _ _ _ => exact absurd hnm (by simp [Stmt.isModeSwitch])
   | setPage n =>
     simp only [step] at h
     split at h
@@ -367,30 +370,85 @@ theorem step_only_active_page_in_view (s : Screen) (hinv : Inv s) (attr : Nat) (
   | fill y xl xr => exact draw _ (by simp) (by simp) (by simp) hfill (by simp only [step] at h; exact h)
   | put x y w hh => exact draw _ (by simp) (by simp) (by simp) hfill (by simp only [step] at h; exact h)
 
-/-- **only_active_page**, over histories: from any state in which the viewport points at the active page, after
-    any list of statements (page switches, VIEW, drawing statements in any order, failing ones included), a page
-    that was never the active page at any point of the history is unchanged. -/
+/-- A video mode switch (`SCREEN m[,,apage]`, page arguments given or omitted) re-establishes the invariant: the
+    fresh viewport of the new mode points at the page that is active afterwards, whatever the state before
+    (the mode switch itself erases all pages, which is why it is excluded from the page-frame theorems). -/
+theorem mode_switch_points_at_active_page (s : Screen) (attr : Nat) (t : Bool) (w h : Int) (np : Nat)
+    (a : Option Nat) (s' : Screen) (hs : step s attr (.setMode t w h np a) = .ok s') :
+    Inv s' ∧ s'.apage = a.getD s.apage ∧ s'.apage < np ∧ s'.view = View.full w h := by
+  simp only [step] at hs
+  split at hs
+  · cases hs
+  · rename_i hc
+    injection hs with hs
+    subst hs
+    refine ⟨⟨rfl, ?_⟩, rfl, ?_, rfl⟩
+    · simp only [View.wf, View.full]; omega
+    · show a.getD s.apage < np
+      omega
+
+/-- Over every history - drawing statements, VIEW, page switches and video mode switches in any order, failing
+    statements included - the viewport points at the active page and its rectangle lies on the screen; so
+    `step_only_active_page_in_view` applies to whatever statement comes next. -/
+theorem run_keeps_inv (attr : Nat) (sts : List Stmt) :
+    ∀ (s : Screen), Inv s → (∀ st ∈ sts, ∀ v, FillOk v st) → Inv (run s attr sts) := by
+  induction sts with
+  | nil => intro s h _; exact h
+  | cons st rest ih =>
+    intro s hinv hf
+    have hfr : ∀ st ∈ rest, ∀ v, FillOk v st := fun st hm => hf st (List.mem_cons_of_mem _ hm)
+    unfold run
+    cases hs : step s attr st with
+    | error e => exact ih s hinv hfr
+    | ok s' =>
+      simp only []
+      apply ih s' ?_ hfr
+      cases hm : st.isModeSwitch with
+      | false => exact (step_only_active_page_in_view s hinv attr st s' (hf st List.mem_cons_self s.view) hm hs).1
+      | true =>
+        cases st with
+        | setMode t w h np a => exact (mode_switch_points_at_active_page s attr t w h np a s' hs).1
+        | _ => simp [Stmt.isModeSwitch] at hm
+
+/-- Why `Graphics.set_page` must not be skipped after `init_mode`: with the shortcut "the requested page equals
+    the remembered active page, nothing to do", `SCREEN 7,,1,1 : SCREEN 8` leaves the fresh viewport on page 0
+    while page 1 is active, and the next PSET changes page 0.  (Model of a seeded change, not of /repo.) -/
+theorem mode_switch_shortcut_breaks_inv :
+    ∃ (s s1 s2 : Screen) (attr : Nat), Inv s ∧ s.apage = 1 ∧
+      setModeShortcut s false 640 200 16 none = .ok s1 ∧ s1.apage = 1 ∧ ¬ Inv s1 ∧
+      step s1 attr (.pset 10 10) = .ok s2 ∧ s2.pages 0 10 10 ≠ s1.pages 0 10 10 ∧
+      ∃ s1', step s attr (.setMode false 640 200 16 none) = .ok s1' ∧ Inv s1' := by
+  refine ⟨⟨false, 32, 1, 1, View.full 320 200, fun _ _ _ => 0⟩, _, _, 3, ⟨rfl, by decide⟩, rfl, rfl, rfl, ?_,
+    rfl, ?_, _, rfl, ⟨rfl, by decide⟩⟩
+  · intro h; exact absurd h.1 (by decide)
+  · decide
+
+/-- **only_active_page**, over histories within one video mode: from any state in which the viewport points at
+    the active page, after any list of statements (page switches, VIEW, drawing statements in any order, failing
+    ones included), a page that was never the active page at any point of the history is unchanged. -/
 theorem only_active_page (attr : Nat) (sts : List Stmt) :
-    ∀ (s : Screen), Inv s → (∀ st ∈ sts, ∀ v, FillOk v st) → ∀ (i : Nat),
+    ∀ (s : Screen), Inv s → (∀ st ∈ sts, ∀ v, FillOk v st) → (∀ st ∈ sts, st.isModeSwitch = false) → ∀ (i : Nat),
       (∀ k, (run s attr (sts.take k)).apage ≠ i) → (run s attr sts).pages i = s.pages i := by
   induction sts with
-  | nil => intro s _ _ i _; rfl
+  | nil => intro s _ _ _ i _; rfl
   | cons st rest ih =>
-    intro s hinv hf i hk
+    intro s hinv hf hm i hk
     have h0 : s.apage ≠ i := by simpa [run] using hk 0
     have hfr : ∀ st ∈ rest, ∀ v, FillOk v st := fun st hm => hf st (List.mem_cons_of_mem _ hm)
+    have hmr : ∀ st ∈ rest, st.isModeSwitch = false := fun st h => hm st (List.mem_cons_of_mem _ h)
     unfold run
     cases hs : step s attr st with
     | error e =>
       simp only []
-      apply ih s hinv hfr i
+      apply ih s hinv hfr hmr i
       intro k
       have := hk (k + 1)
       simpa [List.take, run, hs] using this
     | ok s' =>
       simp only []
-      obtain ⟨hinv', hp, _⟩ := step_only_active_page_in_view s hinv attr st s' (hf st List.mem_cons_self s.view) hs
-      rw [ih s' hinv' hfr i ?_]
+      obtain ⟨hinv', hp, _⟩ := step_only_active_page_in_view s hinv attr st s' (hf st List.mem_cons_self s.view)
+        (hm st List.mem_cons_self) hs
+      rw [ih s' hinv' hfr hmr i ?_]
       · exact hp i (fun h => h0 h.symm)
       · intro k
         have := hk (k + 1)
